@@ -564,6 +564,9 @@ func run(c *vf.Ctx) {
 		if strings.HasPrefix(t, "stolen-live") {
 			min = 2 // known-finding classes are kept to a small share
 		}
+		if t == "stolen-sub" && min > 20 {
+			min = 20 // few distinct combinations exist
+		}
 		c.RequireCounter("technique:"+t, int64(min))
 	}
 	for _, o := range []string{"rejected-not-current", "rejected-foreign-from", "rejected-origin-send-not-user-call", "rejected-origin-send-limit", "rejected-denom"} {
@@ -573,7 +576,7 @@ func run(c *vf.Ctx) {
 		c.RequireCounter("control_ok:"+n, 1)
 	}
 	c.RequireCounter("positive_controls_ok", int64(c.N(30, 300)))
-	c.RequireCounter("decreases_covered_by_plan", int64(c.N(150, 3000)))
+	c.RequireCounter("decreases_covered_by_plan", int64(c.N(150, 1500)))
 	c.RequireCounter("storage_deposit_locks_observed", 3)
 	c.RequireCounter("supply_changes_observed", 5)
 	for _, a := range []string{"call", "run", "victim-call", "direct"} {
